@@ -9,7 +9,8 @@
 
     Modelled tree: /repo with the C19 repair (a solution with an empty or odd interface
     list yields Ok(None); the unrepaired code panicked at interfaces.first().expect(..) on the
-    empty list and returned paths with an odd interface list).
+    empty list and returned paths with an odd interface list) and the C04 repair (the AS MTU
+    saturates at 65535 instead of wrapping: `as_entry.mtu as u16`).
 
     Parameters (Section variables):
     - [Hid]  : SHA-256 as used by PathSegment::id (only the ORDER of ids is observable: final
@@ -387,7 +388,7 @@ Definition hop_step (sidx : nat) (pr : option nat) (st : hstate) (it : nat * ase
   let is_peer := at_sc && match pr with Some _ => true | None => false end in
   let ifs2 := if negb (hf_in hf =? 0) && (negb is_shortcut || is_peer)
               then ifs1 ++ [(ae_ia ae, hf_in hf)] else ifs1 in
-  Ok (mkHS (N.min mtu1 (ae_mtu ae mod 65536)) ifs2 (hs_hops st ++ [hf])).
+  Ok (mkHS (N.min mtu1 (N.min (ae_mtu ae) 65535)) ifs2 (hs_hops st ++ [hf])).   (* repaired: was `as u16` *)
 
 (** dst.ia().is_some_and(|dst| dst == last_ia().expect(..)) *)
 Definition in_cons_dir (e : sedge) : res bool :=
